@@ -99,9 +99,149 @@ fn drive_scenario(plan: &Plan) -> ! {
     finish(&v, plan)
 }
 
+/// independent decoder of the client stream: varint length + payload; returns (payloads, bytes left over at the end, framing broken)
+fn frames_of(raw: &[u8]) -> (Vec<Vec<u8>>, usize, bool) {
+    let mut pos = 0usize;
+    let mut out = vec![];
+    while pos < raw.len() {
+        let start = pos;
+        let mut len = 0usize;
+        let mut shift = 0;
+        let mut ok = false;
+        while pos < raw.len() {
+            let b = raw[pos];
+            pos += 1;
+            len |= ((b & 0x7f) as usize) << shift;
+            shift += 7;
+            if b & 0x80 == 0 { ok = true; break; }
+            if shift > 35 { return (out, raw.len() - start, true); }
+        }
+        if !ok || pos + len > raw.len() { return (out, raw.len() - start, false); }
+        out.push(raw[pos..pos + len].to_vec());
+        pos += len;
+    }
+    (out, 0, false)
+}
+
+fn count(hay: &[u8], needle: &[u8]) -> usize {
+    if needle.is_empty() || hay.len() < needle.len() { return 0; }
+    hay.windows(needle.len()).filter(|w| *w == needle).count()
+}
+
+fn read_all(c: &mut TcpStream, idle_ms: u64) -> Vec<u8> {
+    c.set_read_timeout(Some(Duration::from_millis(idle_ms))).unwrap();
+    let mut raw = Vec::new();
+    let mut buf = vec![0u8; 1 << 16];
+    loop {
+        match c.read(&mut buf) { Ok(0) => break, Ok(k) => raw.extend_from_slice(&buf[..k]), Err(_) => break }
+    }
+    raw
+}
+
+/// The event-loop scenarios of the encoding, driven through the public API over loopback sockets.
+fn loop_scenario(plan: &Plan) -> ! {
+    let which = plan.inputs.get("which").copied().unwrap_or(0);
+    let port = { let l = std::net::TcpListener::bind("127.0.0.1:0").unwrap(); l.local_addr().unwrap().port() };
+    let addr: std::net::SocketAddr = format!("127.0.0.1:{}", port).parse().unwrap();
+    let mut v: Vec<&str> = vec![];
+    let nap = |ms: u64| std::thread::sleep(Duration::from_millis(ms));
+    match which {
+        0 => {
+            // two clients; one goes away; the other keeps reading and must get every metric emitted afterwards
+            let rec = metrics_exporter_tcp::TcpBuilder::new().listen_address(addr).buffer_size(Some(64)).build().expect("build");
+            nap(300);
+            metrics::with_local_recorder(&rec, || metrics::describe_counter!("c11m", "c11desc10"));
+            nap(100);
+            let a = TcpStream::connect_timeout(&addr, Duration::from_secs(2)).expect("connect a");
+            let mut b = TcpStream::connect_timeout(&addr, Duration::from_secs(2)).expect("connect b");
+            nap(300);
+            metrics::with_local_recorder(&rec, || metrics::counter!("c11m", "seq" => "s0e").increment(1));
+            nap(200);
+            drop(a);
+            nap(200);
+            let n = 12;
+            metrics::with_local_recorder(&rec, || {
+                for i in 1..=n { metrics::counter!("c11m", "seq" => format!("s{}e", i)).increment(1); nap(120); }
+            });
+            nap(300);
+            let raw = read_all(&mut b, 800);
+            let (frames, _rest, broken) = frames_of(&raw);
+            let got: Vec<usize> = (0..=n).filter(|i| frames.iter().any(|f| count(f, format!("s{}e", i).as_bytes()) > 0)).collect();
+            println!("reading client: {} frames, framing broken={}, metrics received {:?} of 0..={}", frames.len(), broken, got, n);
+            // the first one or two emissions after the other client left may still go out before the loop notices; the tail must arrive
+            if got.len() < n + 1 && !got.contains(&n) { v.push("client_bookkeeping"); v.push("reading_client_gets_everything"); }
+            if broken { v.push("whole_frames_only"); }
+        }
+        1 => {
+            // a metric is re-described between two connects: the later client must be told the latest unit/description, once, first
+            let rec = metrics_exporter_tcp::TcpBuilder::new().listen_address(addr).buffer_size(Some(64)).build().expect("build");
+            nap(300);
+            metrics::with_local_recorder(&rec, || { metrics::describe_counter!("c11m", metrics::Unit::Bytes, "c11desc10"); metrics::describe_gauge!("c11g", "c11desc12"); });
+            nap(150);
+            let mut a = TcpStream::connect_timeout(&addr, Duration::from_secs(2)).expect("connect a");
+            nap(300);
+            metrics::with_local_recorder(&rec, || { metrics::describe_counter!("c11m", metrics::Unit::Seconds, "c11desc11"); metrics::counter!("c11m", "seq" => "s0e").increment(1); });
+            nap(300);
+            let mut b = TcpStream::connect_timeout(&addr, Duration::from_secs(2)).expect("connect b");
+            nap(300);
+            metrics::with_local_recorder(&rec, || metrics::counter!("c11m", "seq" => "s1e").increment(1));
+            nap(300);
+            let (fa, _, ba) = frames_of(&read_all(&mut a, 600));
+            let (fb, _, bb) = frames_of(&read_all(&mut b, 600));
+            let summary = |fs: &Vec<Vec<u8>>| fs.iter().map(|f| format!("[d10:{} d11:{} d12:{} s0:{} s1:{}]", count(f, b"c11desc10"), count(f, b"c11desc11"), count(f, b"c11desc12"), count(f, b"s0e"), count(f, b"s1e"))).collect::<Vec<_>>().join(" ");
+            println!("client a: {}\nclient b: {}", summary(&fa), summary(&fb));
+            let all = |fs: &Vec<Vec<u8>>, n: &[u8]| fs.iter().map(|f| count(f, n)).sum::<usize>();
+            // b: latest description of c11m exactly once, the stale one never, metadata before metrics, s1 once, s0 never
+            let meta_idx: Vec<usize> = fb.iter().enumerate().filter(|(_, f)| count(f, b"c11desc") > 0).map(|(i, _)| i).collect();
+            let metric_idx: Vec<usize> = fb.iter().enumerate().filter(|(_, f)| count(f, b"s1e") + count(f, b"s0e") > 0).map(|(i, _)| i).collect();
+            let ordered = meta_idx.iter().all(|m| metric_idx.iter().all(|x| m < x));
+            if all(&fb, b"c11desc11") != 1 || all(&fb, b"c11desc10") != 0 || all(&fb, b"c11desc12") != 1 || !ordered || all(&fb, b"s0e") != 0 { v.push("metadata_first_current_then_metrics_in_order"); }
+            if all(&fb, b"s1e") != 1 || all(&fa, b"s0e") != 1 || all(&fa, b"s1e") != 1 || all(&fa, b"c11desc10") != 1 { v.push("reading_client_gets_everything"); }
+            if ba || bb { v.push("whole_frames_only"); }
+        }
+        _ => {
+            // one client that stalls while large frames are emitted into a buffer of 2, then reads: only whole frames, in order
+            const VAL: usize = 200_000;
+            let rec = metrics_exporter_tcp::TcpBuilder::new().listen_address(addr).buffer_size(Some(2)).build().expect("build");
+            nap(300);
+            let mut c = TcpStream::connect_timeout(&addr, Duration::from_secs(2)).expect("connect");
+            nap(300);
+            let n = 60;
+            metrics::with_local_recorder(&rec, || {
+                for i in 0..n {
+                    let letter = (b'A' + (i % 26) as u8) as char;
+                    let big: String = std::iter::repeat(letter).take(VAL).collect();
+                    metrics::gauge!("c11g", "seq" => format!("s{}e", i), "v" => big).set(i as f64);
+                    nap(20);
+                }
+            });
+            nap(300);
+            let mut raw = read_all(&mut c, 1200);
+            metrics::with_local_recorder(&rec, || { for i in 0..3 { metrics::gauge!("c11g", "seq" => format!("s{}e", 1000 + i)).set(0.0); nap(30); } });
+            raw.extend(read_all(&mut c, 800));
+            let (frames, rest, broken) = frames_of(&raw);
+            let mut torn = broken || rest > 0;
+            let mut last = -1i64;
+            let mut order_ok = true;
+            for f in &frames {
+                let seqs: Vec<i64> = (0..n as i64).chain(1000..1003).filter(|i| count(f, format!("s{}e", i).as_bytes()) > 0).collect();
+                if seqs.len() != 1 { torn = true; println!("a frame of {} bytes holds {} sequence markers", f.len(), seqs.len()); break; }
+                if f.len() > 1000 && !(f.len() >= VAL && f.len() < VAL + 300) { torn = true; println!("a frame of {} bytes is not one whole message", f.len()); break; }
+                if seqs[0] <= last { order_ok = false; }
+                last = seqs[0];
+            }
+            println!("stalled client: {} bytes, {} frames, {} bytes left over, torn={}, in order={}", raw.len(), frames.len(), rest, torn, order_ok);
+            if torn { v.push("whole_frames_only"); }
+            if !order_ok { v.push("metadata_first_current_then_metrics_in_order"); }
+        }
+    }
+    finish(&v, plan)
+}
+
 fn main() {
     let plan = load_plan(&std::env::args().nth(1).expect("plan"));
     if plan.scenario == "c11_drive" { drive_scenario(&plan); }
+    if plan.scenario == "c11_loop" { loop_scenario(&plan); }
     let has = plan.inputs.get("has").copied().unwrap_or(0) != 0;
     let n = plan.inputs.get("n").copied().unwrap_or(0) as usize;
     // pick a free port
